@@ -41,6 +41,11 @@ def variants(case):
     the tree (PruneNGramStream does not move the special unigrams; C05/C06), so those options are
     dropped there.  --discount_fallback always, so tiny corpora are accepted."""
     a = dict(case)
+    # C07 is about accepted runs: an option vector ParsePruning refuses (C06 covers those) is dropped,
+    # unusual spellings are normalised to the thresholds they mean
+    pcls, thr = L.parse_prune(a)
+    if a["prune"] is not None:
+        a["prune"] = None if pcls != "ok" else [L.parse_u64(t) for t in a["prune"]]
     if a["fallback"] is None:
         a["fallback"] = "default"
     uni = (a["prune"] is not None and a["prune"][0] > 0) or a["limit"] is not None
